@@ -150,7 +150,7 @@ func runC15(ctx *Ctx) *Result {
 		if ru := set.Spec.UpdateStrategy.RollingUpdate; ru != nil && ru.Partition != nil && *ru.Partition < 0 {
 			res.Stats["reconciled_with_negative_partition"]++
 		}
-		w.Reset()
+		w.ResetLight()
 		set.UID = ""
 		stored := w.Srv.Seed(simapi.Sets, set).(*asv1.StatefulSet)
 		// pod / revision population
